@@ -7,6 +7,7 @@ import (
 	"encoding/hex"
 	"fmt"
 	"os"
+	"path"
 	"path/filepath"
 	"sort"
 	"strings"
@@ -154,10 +155,13 @@ const (
 	opRm
 	opCleanDir
 	opFileHash
+	opFindAll
+	opGlob
+	opConvertPaths
 	opCount
 )
 
-var c06OpNames = []string{"MkDir", "WriteFile", "Touch", "ReadFile", "Exists", "IsFile", "IsDir", "IsEmpty", "GetFileSize", "Ls", "LsRecursive", "ListDirTree", "SubDirectories", "Copy", "CopyToFile", "CopyToDirectory", "Move", "Rm", "CleanDir", "FileHash"}
+var c06OpNames = []string{"MkDir", "WriteFile", "Touch", "ReadFile", "Exists", "IsFile", "IsDir", "IsEmpty", "GetFileSize", "Ls", "LsRecursive", "ListDirTree", "SubDirectories", "Copy", "CopyToFile", "CopyToDirectory", "Move", "Rm", "CleanDir", "FileHash", "FindAll", "Glob", "ConvertToRelativePath+ConvertToAbsolutePath"}
 
 type c06Call struct {
 	op   int
@@ -165,10 +169,17 @@ type c06Call struct {
 	p2   string
 	data []byte
 	flag bool
+	aux  string // FindAll: extension; Glob: pattern suffix appended to p1
 }
 
 func (c c06Call) String() string {
 	switch c.op {
+	case opFindAll:
+		return fmt.Sprintf("%s(%q, %q)", c06OpNames[c.op], c.p1, c.aux)
+	case opGlob:
+		return fmt.Sprintf("%s(%q)", c06OpNames[c.op], trimSep(c.p1)+c.aux)
+	case opConvertPaths:
+		return fmt.Sprintf("%s(root=%q, %q)", c06OpNames[c.op], c.p1, c.p2)
 	case opWriteFile:
 		return fmt.Sprintf("%s(%q, %d bytes)", c06OpNames[c.op], c.p1, len(c.data))
 	case opCopy, opCopyToFile, opCopyToDirectory, opMove:
@@ -185,6 +196,7 @@ type c06Expect struct {
 	notFound  bool        // the error must be of the not-found kind
 	value     interface{} // bool, int64, []byte, string, []string (compared as sets)
 	filesOnly bool        // LsRecursive: compare the file members only
+	optional  []string    // listing members that may or may not be present
 	allowed   []string    // path prefixes that may change
 	srcKeep   []string    // subtrees that must stay unchanged
 	mutates   bool
@@ -532,23 +544,83 @@ func (m fsModel) model(c c06Call) c06Expect {
 		}
 		h := sha256.Sum256(e.data)
 		return c06Expect{defined: true, value: hex.EncodeToString(h[:])}
+	case opFindAll:
+		// every entry below the directory whose name ends in ".<ext>" (a missing directory gives an empty list)
+		if e := m.get(p); e != nil && !e.dir {
+			return undefined
+		}
+		out := []string{}
+		for _, k := range m.subtree(p) {
+			if k != p && strings.HasSuffix(filepath.Base(k), "."+c.aux) {
+				out = append(out, k)
+			}
+		}
+		return c06Expect{defined: true, value: out}
+	case opGlob:
+		if e := m.get(p); e != nil && !e.dir {
+			return undefined
+		}
+		pat := strings.Split(strings.TrimPrefix(p+c.aux, "/"), "/")
+		out := []string{}
+		var optional []string
+		for k := range m {
+			if globSegs(pat, strings.Split(strings.TrimPrefix(k, "/"), "/")) {
+				if k == p {
+					optional = append(optional, k) // whether "dir/**" names dir itself is not fixed by the documentation
+					continue
+				}
+				out = append(out, k)
+			}
+		}
+		return c06Expect{defined: true, value: out, optional: optional}
+	case opConvertPaths:
+		// relative to the root and back again: the same (cleaned) path, for a path below the root
+		if !isSub(p, q) {
+			return undefined
+		}
+		return c06Expect{defined: true, value: filepath.Clean(q)}
 	}
 	return undefined
 }
 
+// globSegs matches path segments against pattern segments: * and ? inside a segment (path.Match), ** for any number of
+// segments, including none.
+func globSegs(pat, segs []string) bool {
+	if len(pat) == 0 {
+		return len(segs) == 0
+	}
+	if pat[0] == "**" {
+		for i := 0; i <= len(segs); i++ {
+			if globSegs(pat[1:], segs[i:]) {
+				return true
+			}
+		}
+		return false
+	}
+	if len(segs) == 0 {
+		return false
+	}
+	if ok, _ := path.Match(pat[0], segs[0]); !ok {
+		return false
+	}
+	return globSegs(pat[1:], segs[1:])
+}
+
 type c06World struct {
-	name     string
-	seam     *Seam
-	vfs      filesystem.FS
-	cleanup  func()
-	back     interface{}
-	budget   int
-	opsCall  int
-	over     bool
-	exdev    bool // renames fail with EXDEV
-	failAt   int  // fail the k-th operation of the current call with EIO (-1 never)
-	cancelAt int
-	cancel   context.CancelFunc
+	name    string
+	seam    *Seam
+	vfs     filesystem.FS
+	cleanup func()
+	back    interface{}
+	budget  int
+	opsCall int
+	over    bool
+	exdev   bool // renames fail with EXDEV
+	// renameOntoAncestor: the last call asked the backend to rename an entry onto its own ancestor
+	renameOntoAncestor string
+	failAt             int // fail the k-th operation of the current call with EIO (-1 never)
+	cancelAt           int
+	cancel             context.CancelFunc
 }
 
 func newC06World(b fsBackend) *c06World {
@@ -567,6 +639,13 @@ func newC06World(b fsBackend) *c06World {
 			// rename(2) of a directory into its own sub-tree is EINVAL on every kernel; afero.MemMapFs instead
 			// crashes the process (nil dereference + fatal RUnlock), which would take the whole worker down
 			return &Fault{Err: &os.LinkError{Op: "rename", Old: op.Path, New: op.Path2, Err: syscall.EINVAL}}
+		}
+		if op.Name == "rename" && filepath.Clean(op.Path) != filepath.Clean(op.Path2) && isSub(filepath.Clean(op.Path2), filepath.Clean(op.Path)) {
+			// rename(2) of an entry onto one of its own ancestors fails (ENOTEMPTY: the ancestor holds the entry); on some
+			// histories afero.MemMapFs instead kills the process (nil dereference, then a fatal RUnlock). The library
+			// must not issue it: intercepted, answered like a kernel would, and reported.
+			w.renameOntoAncestor = fmt.Sprintf("rename(%q, %q)", op.Path, op.Path2)
+			return &Fault{Err: &os.LinkError{Op: "rename", Old: op.Path, New: op.Path2, Err: syscall.ENOTEMPTY}}
 		}
 		if w.exdev && op.Name == "rename" {
 			return &Fault{Err: &os.LinkError{Op: "rename", Old: op.Path, New: op.Path2, Err: syscall.EXDEV}}
@@ -646,6 +725,22 @@ func (w *c06World) exec(ctx context.Context, c c06Call) c06Result {
 	case opFileHash:
 		v, err := fs.FileHashWithContext(ctx, "SHA256", c.p1)
 		return c06Result{value: v, err: err}
+	case opFindAll:
+		v, err := fs.FindAll(c.p1, c.aux)
+		return c06Result{value: v, err: err}
+	case opGlob:
+		v, err := fs.Glob(trimSep(c.p1) + c.aux)
+		return c06Result{value: v, err: err}
+	case opConvertPaths:
+		rel, err := fs.ConvertToRelativePath(c.p1, c.p2)
+		if err != nil {
+			return c06Result{err: err}
+		}
+		abs, err := fs.ConvertToAbsolutePath(c.p1, rel...)
+		if err != nil || len(abs) != 1 {
+			return c06Result{err: err, value: ""}
+		}
+		return c06Result{value: abs[0]}
 	}
 	return c06Result{}
 }
@@ -691,6 +786,9 @@ func valueMatches(ex c06Expect, got interface{}, dirs fsModel) (bool, string) {
 					delete(gs, k)
 				}
 			}
+		}
+		for _, k := range ex.optional {
+			delete(gs, filepath.Clean(k))
 		}
 		var missing, extra []string
 		for k := range ws {
@@ -747,7 +845,7 @@ func c06Clean(p string) string { return filepath.Clean(trimSep(p)) }
 
 func c06DrawCall(ch *Chooser, wild bool) c06Call {
 	c := c06Call{}
-	c.op = ch.Pick("op", 4, 5, 2, 2, 1, 1, 1, 1, 1, 2, 2, 2, 1, 6, 2, 3, 5, 3, 2, 1)
+	c.op = ch.Pick("op", 4, 5, 2, 2, 1, 1, 1, 1, 1, 2, 2, 2, 1, 6, 2, 3, 5, 3, 2, 1, 1, 2, 1)
 	pick := func(kind string) string {
 		p := c06Paths[ch.Intn(kind, len(c06Paths))]
 		sepW := 6
@@ -775,6 +873,12 @@ func c06DrawCall(ch *Chooser, wild bool) c06Call {
 		}
 	case opLsRecursive:
 		c.flag = ch.Intn("incdirs", 2) == 1
+	case opFindAll:
+		c.aux = []string{"h", "s", "data", "txt"}[ch.Intn("ext", 4)]
+	case opGlob:
+		c.aux = []string{"/*", "/**", "/**/x", "/?", "/*/*", "/**/.*", "/x*"}[ch.Intn("globpat", 7)]
+	case opConvertPaths:
+		c.p2 = pick("p2")
 	}
 	return c
 }
@@ -860,6 +964,10 @@ func runC06(rc *RunCtx) {
 			if w.over {
 				viol(opName+"|does-not-terminate", fmt.Sprintf("%s on %s issued more than %d backend operations (cut off by the harness); returned %v", c, w.name, w.budget, r.err))
 				break
+			}
+			if w.renameOntoAncestor != "" {
+				viol(opName+"|backend-asked-to-rename-an-entry-onto-its-own-ancestor", fmt.Sprintf("%s on %s issued %s: it cannot succeed on a POSIX backend and makes the in-memory backend (afero.MemMapFs) crash the whole process on some histories", c, w.name, w.renameOntoAncestor))
+				w.renameOntoAncestor = ""
 			}
 			if bal := w.seam.Balance(); bal != 0 {
 				viol(opName+"|handle-leak", fmt.Sprintf("%s on %s left %d handles open: %v (returned %v)", c, w.name, bal, w.seam.OpenPaths(), r.err))
